@@ -2,6 +2,7 @@
 from .. import grids, partrun
 from ..framework import Model, Stage
 from . import algo_common as ac
+from . import extras_common
 
 PID = "C07"
 RULE = ("partition cases = (dataset, scheme): TLC enumerates ALL optimal consensus rankings and checks the three clauses "
@@ -124,4 +125,5 @@ def stages(tier, rng, only=None):
         out.append(Stage("random", "Trace_Part", partrun.run_partitions,
                          lambda: _cases([ac.random_dataset(rng, 5, 5, nmin=3) for _ in range(3000)],
                                         SCHEMES + ac.grid_sample(rng, 10), False), _nt_part, partrun.init, aux=aux))
+    out += extras_common.c07_stages(tier, rng)      # specified behaviour outside the listed properties (drift only)
     return [s for s in out if not only or s.name == only]
